@@ -30,7 +30,7 @@ def unquoteFragment : Str → Str := safelyUnquote Gen.Quote.unsafeForFragment
 def unquoteQsl (qsl : List (Str × Option Str)) : List (Str × Option Str) :=
   qsl.map fun (k, v) => (unquoteQueryItem k, v.map unquoteQueryItem)
 def quoteQsl (qsl : List (Str × Option Str)) : List (Str × Option Str) :=
-  qsl.map fun (k, v) => (safelyQuote k, v.map safelyQuote)
+  qsl.map fun (k, v) => (quoteQueryItem k, v.map quoteQueryItem)
 
 /-- lines 30–35: cleaning and `ensure_protocol` -/
 def cleanUrl (url defaultProtocol : Str) : Str :=
